@@ -76,7 +76,7 @@ def classify(node):
         if fn.startswith("gamedig::") and any("Buffer<" in (a[1].get("ty", "") + a[1].get("aty", "")) for a in args) and not fn.startswith("gamedig::buffer::"):
             name = inst.split("gamedig::")[-1]
             ga2 = [_short_ty(x) for x in (node[1].get("inst_gargs") or ga) if not x.startswith("'")]
-            return "parse:%s%s" % (name, "<" + ",".join(ga2) + ">" if ga2 else "")
+            return "parse %s%s" % (name, "<" + ",".join(ga2) + ">" if ga2 else "")
         return None
     if k == "index":
         idx = H.lit(node[3])
@@ -123,7 +123,12 @@ def _via_of(anc, child):
             return ctor.split("::")[-1]
         fn = anc[1].get("inst") or anc[1].get("fn") or ""
         if fn:
-            return fn.split("gamedig::")[-1].split("::")[-1] + "()"
+            nm = fn.split("gamedig::")[-1].split("::")[-1]
+            if nm in ("write_box_via_move", "new_uninit"):
+                return None
+            if nm in ("box_assume_init_into_vec_unsafe", "into_vec"):
+                return "vec!"
+            return nm + "()"
         return "call"
     if k == "mcall":
         nm = anc[1]["name"]
@@ -153,7 +158,26 @@ def _via_of(anc, child):
     return k
 
 
-def extract(f):
+def _has_op(n, calls):
+    for x, _ in H.walk(n):
+        if classify(x) is not None or (calls and _local_call(x)):
+            return True
+    return False
+
+
+def _local_call(node):
+    if node[0] not in ("call", "mcall"):
+        return None
+    fn = node[1].get("inst") or H.declared_callee(node) or ""
+    if not fn.startswith("gamedig::") or fn.startswith(("gamedig::buffer::", "gamedig::errors::")) or node[1].get("ctor"):
+        return None
+    if fn.endswith(("::context", "::into", "::from")):
+        return None
+    ga = [_short_ty(x) for x in (node[1].get("inst_gargs") or []) if not x.startswith("'")]
+    return "call %s%s" % (fn.split("gamedig::")[-1], "<" + ",".join(ga) + ">" if ga else "")
+
+
+def extract(f, calls=False):
     """-> list of rows {op, via, dest, ctx} for function f (typed HIR)"""
     body = H.body_of(f)
     if body is None:
@@ -162,6 +186,24 @@ def extract(f):
     binds = {}     # local name -> row index that defines it (let x = <op chain>)
     for node, parents in H.walk(body):
         op = classify(node)
+        if op is None and calls:
+            op = _local_call(node)
+            if op is not None:
+                op += "(" + ", ".join(H.show(a) for a in H.call_args(node)) + ")"
+        if op is None and node[0] == "fld" and parents and parents[-1][0] == "struct" and not _has_op(node[2], calls):
+            # struct field initialised without any wire operation: record what it is initialised from
+            e = H.strip(node[2])
+            op = "init " + H.show(e).replace("core::option::Option::", "")
+            node = node[2]
+            parents = parents + (parents[-1][[i for i, x in enumerate(parents[-1]) if x is not None and isinstance(x, list) and len(x) > 2 and x[2] is node][0]],) if False else parents
+            st_node = parents[-1]
+            nm = (st_node[1].get("adt") or st_node[1].get("text", "?")).split("::")[-1]
+            if st_node[1].get("variant"):
+                nm += ":" + st_node[1]["variant"]
+            fname = [x for x in st_node[2:] if x[0] == "fld" and x[2] is node][0][1]["name"]
+            ctx0 = _ctx_of(parents)
+            rows.append({"op": op, "via": [], "dest": ("fld", fname, nm), "ctx": ctx0, "at": node[1].get("at")})
+            continue
         if op is None:
             continue
         # index chains: only the outermost index of a chain is reported
@@ -206,7 +248,13 @@ def extract(f):
                 elif k == "match" and anc[1].get("src") != "try" and anc[2] is child:
                     via.append("match-scrutinee")
                     stop = True
-                elif k == "arm" or (k == "block" and child is not anc[-1]) or k == "loop":
+                elif k == "arm":
+                    pass
+                elif k == "match" and anc[1].get("src") == "normal" and anc[2] is not child:
+                    pass
+                elif k == "if" and anc[2] is not child:
+                    pass
+                elif (k == "block" and child is not anc[-1]) or k == "loop":
                     stop = True
                 elif k == "stmt":
                     stop = True
@@ -234,7 +282,9 @@ def extract(f):
                 if anc[2] is not child:
                     arm = child
                     if anc[1].get("src") == "for":
-                        ctx.append("for(%s)" % H.show(anc[2]))
+                        sc = H.show(anc[2])
+                        if sc.startswith("into_iter("):
+                            ctx.append("for(%s)" % sc[len("into_iter("):-1])
                     else:
                         guard = " if " + H.show(arm[3]) if arm[1].get("guard") else ""
                         ctx.append("match(%s)=>%s%s" % (H.show(anc[2]), H.show_pat(arm[2]), guard))
@@ -251,6 +301,37 @@ def extract(f):
         rows.append({"op": op, "via": via, "dest": dest, "ctx": ctx, "at": node[1].get("at")})
         if dest and dest[0] == "let":
             binds[dest[1]] = len(rows) - 1
+    # let-bound locals without a wire op that feed an op row / struct field: record what they are bound to
+    lets = []
+    for n, parents in H.walk(body):
+        if n[0] == "let" and len(n) > 3:
+            names_ = [x[1]["name"] for x, _ in H.walk(n[2]) if x[0] == "pbind"]
+            lets.append((n, parents, names_))
+        elif n[0] == "assign":
+            ln_ = H.local_name(n[2])
+            if ln_:
+                lets.append((n, parents, [ln_]))
+    uses0 = _direct_field_uses(body)
+    emitted = set()
+    for _round in range(3):
+        text = " ".join([r["op"] + " " + " ".join(r["ctx"]) + " " + " ".join(r["via"]) for r in rows])
+        idents = set(re.findall(r"[A-Za-z_][A-Za-z_0-9]*", text)) | set(uses0)
+        added = False
+        for (n, parents, names_) in lets:
+            if id(n) in emitted or not any(x in idents for x in names_):
+                continue
+            if n[0] == "let" and any(x in binds for x in names_):
+                continue
+            init = n[3]
+            if _has_op(init, calls) and n[0] == "let":
+                continue
+            emitted.add(id(n))
+            added = True
+            lhs = H.show_pat(n[2]) if n[0] == "let" else H.show(n[2])
+            rows.append({"op": "%s %s = %s" % ("bind" if n[0] == "let" else "set", lhs, H.show(H.strip(init)).replace("core::option::Option::", "")),
+                         "via": [], "dest": None, "ctx": _ctx_of(parents + (n,))[:-0 or None], "at": n[1].get("at")})
+        if not added:
+            break
     # resolve let-bound locals to struct fields they initialise directly
     uses = _direct_field_uses(body)
     names = {}
@@ -273,6 +354,35 @@ def extract(f):
         out.append({"op": _ren(r["op"], names), "via": [_ren(v, names) for v in r["via"]], "dest": ds,
                     "ctx": [_ren(c, names) for c in r["ctx"]], "at": r["at"]})
     return out
+
+
+def _ctx_of(parents):
+    ctx = []
+    child = None
+    chain = list(parents)
+    for i in range(len(chain) - 1, -1, -1):
+        anc = chain[i]
+        child = chain[i + 1] if i + 1 < len(chain) else None
+        k = anc[0]
+        if child is None:
+            continue
+        if k == "if" and anc[2] is not child:
+            which = "if" if (len(anc) > 3 and anc[3] is child) else "else"
+            ctx.append("%s(%s)" % (which, H.show(anc[2])))
+        elif k == "match" and anc[1].get("src") not in ("try",) and anc[2] is not child:
+            if anc[1].get("src") == "for":
+                sc = H.show(anc[2])
+                if sc.startswith("into_iter("):
+                    ctx.append("for(%s)" % sc[len("into_iter("):-1])
+            else:
+                guard = " if " + H.show(child[3]) if child[1].get("guard") else ""
+                ctx.append("match(%s)=>%s%s" % (H.show(anc[2]), H.show_pat(child[2]), guard))
+        elif k == "loop" and anc[1].get("src") != "ForLoop":
+            ctx.append("loop:%s" % anc[1].get("src"))
+        elif k == "closure":
+            ctx.append("closure")
+    ctx.reverse()
+    return ctx
 
 
 def _fold_for(ctx):
@@ -304,7 +414,7 @@ def _ren(s, names):
     def rep(m):
         w = m.group(0)
         return names.get(w, w)
-    return re.sub(r"(?<![\w'.])[A-Za-z_][A-Za-z_0-9]*(?![\w'(])", rep, s)
+    return re.sub(r"(?<![\w'.:])[A-Za-z_][A-Za-z_0-9]*(?![\w'(:])", rep, s)
 
 
 def _direct_field_uses(body):
@@ -325,9 +435,36 @@ def _direct_field_uses(body):
     return res
 
 
+_CRATE = [None]
+
+
+def set_crate(c):
+    _CRATE[0] = c
+
+
+def _stable_paths(s):
+    """replace `mod::{impl#N}::name` (N shifts when impl blocks are added) by `mod::<SelfTy>::name`"""
+    c = _CRATE[0]
+    if c is None or "{impl#" not in s:
+        return s
+    from . import sites as S_
+
+    def rep(m):
+        p = m.group(0)
+        parts = p.split("::")
+        for i in range(len(parts), 1, -1):
+            f2 = c.fn("gamedig::" + "::".join(parts[:i])) or c.fn("::".join(parts[:i]))
+            if f2 is not None:
+                d = S_.fn_display(f2).split("gamedig::", 1)[-1]
+                if "{impl#" not in d:
+                    return d + ("::" + "::".join(parts[i:]) if parts[i:] else "")
+        return re.sub(r"\{impl#\d+\}", "{impl}", p)
+    return re.sub(r"[A-Za-z_0-9:]*\{impl#\d+\}(?:::[A-Za-z_0-9]+)*", rep, s)
+
+
 def fmt(row):
-    return "%s | %s%s -> %s" % (" & ".join(row["ctx"]) or "-", row["op"], (" via " + " ".join(row["via"])) if row["via"] else "", row["dest"])
+    return _stable_paths("%s | %s%s -> %s" % (" & ".join(row["ctx"]) or "-", row["op"], (" via " + " ".join(row["via"])) if row["via"] else "", row["dest"]))
 
 
-def trace_strings(f):
-    return [fmt(r) for r in extract(f)]
+def trace_strings(f, calls=False):
+    return [fmt(r) for r in extract(f, calls)]
